@@ -187,9 +187,79 @@ def check_sending(chk: Check, repo: Repo) -> None:
     chk.rule("E7 cells of get_sequence_number over n vs MAX (symbolic ordering); E5 writer/consumer census of the sending counter")
 
 
+def _step(e: ast.AST, fn: ast.AST, repo: Repo, mod) -> float | None:
+    """smallest distance between two different values the expression can take ("resolution"), by structure:
+    a clock reading is continuous (0.0); constants do not matter for differences; x * k scales the step; int() / round()
+    / floor / `//` quantise to 1 (or keep a coarser step).  None: unknown construct."""
+    from ..astx import inline_locals
+    e = inline_locals(fn, e)
+
+    def st(x: ast.AST) -> float | None:
+        v = repo.fold(x, mod, None)
+        if isinstance(v, (int, float)) and not isinstance(v, bool):
+            return float("inf")  # a constant: takes one value
+        if isinstance(x, ast.Name):
+            # a module-level name bound once and never rebound by a function: one value per process
+            binds = [t for st_ in mod.tree.body if isinstance(st_, (ast.Assign, ast.AnnAssign)) for t in (st_.targets if isinstance(st_, ast.Assign) else [st_.target]) if isinstance(t, ast.Name) and t.id == x.id]
+            rebound = any(isinstance(g, ast.Global) and x.id in g.names for g in ast.walk(mod.tree))
+            if len(binds) == 1 and not rebound:
+                return float("inf")
+            return None
+        if isinstance(x, ast.Call):
+            n = call_name(x)
+            if n in ("time.time", "time.monotonic", "time.time_ns", "time.perf_counter"):
+                return 0.0 if n != "time.time_ns" else 1.0
+            if n in ("int", "round", "math.floor", "math.ceil", "math.trunc") and len(x.args) == 1:
+                a = st(x.args[0])
+                return None if a is None else max(a, 1.0)
+            return None
+        if isinstance(x, ast.BinOp):
+            a, b = st(x.left), st(x.right)
+            if a is None or b is None:
+                return None
+            if isinstance(x.op, (ast.Add, ast.Sub)):
+                return min(a, b)
+            if isinstance(x.op, ast.Mult):
+                for s_, other in ((a, x.right), (b, x.left)):
+                    k = repo.fold(other, mod, None)
+                    if isinstance(k, (int, float)) and not isinstance(k, bool):
+                        return s_ * abs(k) if s_ != float("inf") else s_
+                return None
+            if isinstance(x.op, ast.Div):
+                k = repo.fold(x.right, mod, None)
+                if isinstance(k, (int, float)) and k:
+                    return a / abs(k)
+                return None
+            if isinstance(x.op, ast.FloorDiv):
+                k = repo.fold(x.right, mod, None)
+                if isinstance(k, (int, float)) and k:
+                    return max(a / abs(k), 1.0)
+                return None
+        if isinstance(x, ast.UnaryOp) and isinstance(x.op, (ast.USub, ast.UAdd)):
+            return st(x.operand)
+        return None
+    return st(e)
+
+
+def check_initial_resolution(chk: Check, repo: Repo) -> None:
+    """The sending counter of a fresh instance starts from the clock in milliseconds: the value is quantised only
+    after the scaling, so two starts more than a millisecond apart get different, increasing seeds.  A seed quantised
+    before scaling (step 1000) makes a restart within the same second re-use numbers already sent."""
+    fi = repo.func(M, "_initial_sequence_number")
+    chk.unit(fi)
+    rets = [n for n in walk_local(fi.node) if isinstance(n, ast.Return) and n.value is not None]
+    if len(rets) != 1:
+        raise AnalysisError("_initial_sequence_number: expected a single return")
+    step = _step(rets[0].value, fi.node, repo, fi.module)
+    if step is None:
+        raise AnalysisError(f"_initial_sequence_number: `{ast.unparse(rets[0].value)}` is outside the resolution fragment")
+    chk.ob("initial-sequence-number-has-millisecond-resolution", fi.site(), step <= 1.0, f"`{ast.unparse(rets[0].value)}`: distinct seeds differ by at least {step:g} count(s) (required: 1 — quantisation after the scaling to milliseconds)", key="initial-resolution")
+
+
 def run(chk: Check, repo: Repo) -> None:
     check_csn(chk, repo)
     check_receive(chk, repo)
     check_sending(chk, repo)
+    check_initial_resolution(chk, repo)
     chk.assume("contextlib.contextmanager semantics: an exception leaving the with-body is raised at the yield")
     chk.assume("single event loop thread: no interleaving inside the synchronous receive path")
